@@ -169,6 +169,10 @@ func (c Config) Draw(t *rapid.T) Inst {
 		return Inst{{K: k, P: pp, MT: rapid.SampledFrom(Mtimes).Draw(t, "mt")}, {K: "Mtime", P: pp}}
 	case "Getwd":
 		return Inst{{K: k}}
+	case "Chdir":
+		// where the working directory is afterwards is part of the outcome (a final symbolic
+		// link is resolved: Getwd gives the physical path)
+		return Inst{{K: k, P: path("p")}, {K: "Getwd"}, {K: "Stat", P: "."}}
 	case "Glob":
 		pat := rapid.SampledFrom([]string{"*", "a*", "?", "*/*", "[ab]", "a/*", "b"}).Draw(t, "pat")
 		dir := rapid.SampledFrom(abs).Draw(t, "gdir")
@@ -275,6 +279,10 @@ func (c Config) All(reduced, withRel bool) []Inst {
 			}
 		case "Getwd":
 			r = append(r, Inst{{K: k}})
+		case "Chdir":
+			for _, p := range paths {
+				r = append(r, Inst{{K: k, P: p}, {K: "Getwd"}, {K: "Stat", P: "."}})
+			}
 		case "WalkDir":
 			for _, p := range paths {
 				r = append(r, Inst{{K: k, P: p}})
